@@ -43,6 +43,24 @@ def gen_cases(tier, seed):
                 yield cl.H(cfgv).call(inv.callid, inv.args, inv.blobs, reps).case(5000, '%s / %s' % (inv.name, name))
 
 
+    # the composite unlock: a good seed, then every kind of reply to the key request
+    for inv in invocations():
+        if inv.callid != 5:
+            continue
+        lvl = inv.args[0]
+        seed = (10, bytes([0x67, lvl, 0x11, 0x22, 0x33]))
+        key_replies = [('key positive', bytes([0x67, lvl + 1])), ('key neg35', bytes([0x7F, 0x27, 0x35])), ('key neg-other-service', b'\x7f\x10\x22'),
+                       ('key other-service', b'\x50\x01\x00\x32\x01\xf4'), ('key other-service2', b'\x51\x01'), ('key trunc', b'\x67'),
+                       ('key flip-echo', bytes([0x67, lvl + 3])), ('key odd-echo', bytes([0x67, lvl])), ('key unknown-id', b'\x00\x01'),
+                       ('key empty', b''), ('key silence', None), ('key 7f-short', b'\x7f')]
+        for name, kr in key_replies:
+            for sw in itertools.product((1, 0), repeat=3):
+                cfgv = list(cl.DEFAULT_CFG)
+                for s, v in inv.cfg.items():
+                    cfgv[s] = v
+                cfgv[cl.EX_NEG], cfgv[cl.EX_INV], cfgv[cl.EX_UNX] = sw
+                reps = [seed] + ([(20, kr)] if kr is not None else [])
+                yield cl.H(cfgv).call(inv.callid, inv.args, inv.blobs, reps).case(5000, '%s / %s' % (inv.name, name))
     # the same after an earlier call on the same client ended with an exception of another kind (timeout, rejected argument,
     # missing configuration) or with each of the three response exceptions: the delivery rule has no memory
     prefixes = [('after timeout', 6, [], [], []), ('after ValueError', 7, [0x100], [], []), ('after ConfigError', 25, [0x7777], [b'\x01'], []),
